@@ -90,7 +90,7 @@ func normFault(s string, native string) string {
 }
 
 func isExplicitClass(c string) bool {
-	for _, p := range []string{"s:boom", "s:again", "s:late", "s:hostboom", "s:os.Exit", "e:err", "i:", "E:", "pt:", "hpt:"} {
+	for _, p := range []string{"s:boom", "s:again", "s:late", "s:dpanic", "s:hostboom", "s:os.Exit", "e:err", "i:", "E:", "pt:", "hpt:"} {
 		if strings.HasPrefix(c, p) {
 			return true
 		}
@@ -450,14 +450,14 @@ func faultName(ev string) string {
 //
 // The plan space of small call trees is enumerated completely (the
 // fault_enumeration part of C06): level A = one activation with up to two
-// deferred calls (23 defer variants: 19 plain forms + the recovering literal in
+// deferred calls (26 defer variants: 22 plain forms + the recovering literal in
 // its 4 modes) and each of 37 bodies (return; each of 18 faults; result set then
 // each of 18 faults); level B = the same root calling one child that has up to
 // one deferred call and one of the 37 bodies. Entry point = index mod 5.
 
 var c06DeferVariants = func() [][]int {
 	var v [][]int
-	for k := 0; k < 20; k++ {
+	for k := 0; k < 23; k++ {
 		if k == 5 {
 			for m := 0; m < 4; m++ {
 				v = append(v, []int{5, m})
